@@ -50,6 +50,7 @@ Definition js_stmt_text (fm : bool) (en : env) (props : list string) (s : stmt) 
   | SSetObj f pid o v =>
     js_leaf (fclass f) (pp_js (js_raw_or en o (to_js fm en o))) fm ++ "." ++ nth pid (ftable f) "" ++ " = " ++ pp_js (to_js fm en v)
   | SSetThe k i v => pp_js (to_js fm en (EThe k i)) ++ " = " ++ pp_js (to_js fm en v)
+  | SSetAcc _ _ _ => ""      (* outside the JavaScript theorems, like EAcc *)
   end.
 
 Definition js_ok_s (en : env) (props : list string) (s : stmt) : Prop :=
@@ -65,6 +66,7 @@ Definition js_ok_s (en : env) (props : list string) (s : stmt) : Prop :=
   | SLCallS f args => plain_call_name (nth f (e_lfuncs en) "") = true /\ js_ok_args en args
   | SSetObj f _ o v => assignable f = true /\ js_ok en o /\ js_ok en v
   | SSetThe k i v => js_ok en (EThe k i) /\ js_ok en v
+  | SSetAcc _ _ _ => False
   end.
 
 Lemma js_args_text fm en l : js_ok_args en l -> forall pc ind,
@@ -79,7 +81,7 @@ Qed.
 Theorem js_stmt_line fm en props s : js_ok_s en props s -> forall pc ind,
   gen_js (reify_s en props pc s) ind fm = js_line ind (js_stmt_text fm en props s).
 Proof.
-  destruct s as [t e|f args|f args|fam pid o v|tk ti tv]; intros Hok pc ind; [| | | |].
+  destruct s as [t e|f args|f args|fam pid o v|tk ti tv|an ao av]; intros Hok pc ind; [| | | | |destruct Hok].
   5:{ destruct Hok as (Hk & Hv). cbn [reify_s js_stmt_text].
       pose proof (gen_js_is_pp fm en (EThe tk ti) Hk (pc + zlen (compile_e tv))%Z ind) as Hl. cbn [reify_e] in Hl.
       cbn [gen_js]. change (String.eqb "assign" "assign") with true. cbn iota. rewrite Hl, (gen_js_is_pp fm en tv Hv).
